@@ -17,7 +17,7 @@ RULE = (
     "bits) - in particular it must not be empty; when they are satisfiable the core must be empty.  Calls that pass "
     "extra constraints are made for coverage but only judged under the same condition on the solver's own "
     "constraints.  Non-trivial: the solver's constraints are unsatisfiable; distinct by (class, add order) hash."
-    " Session 4: another solver using the backend between repeated core calls; shards with a conversion cache of six entries."
+    " Session 4: another solver using the backend between repeated core calls; shards with a conversion cache of six entries. Session 5: 'derived' shard - the parts of split(), merge() either way round, blank_copy() given constraints of its own, combine() and branch() of a solver already found contradictory (pair check, false constant, Z3; core asked before or not) and of a satisfiable one, each judged by its own .constraints."
 )
 ASSUMPTIONS = ["a core element re-abstracted from Z3 after cache eviction would only match structurally; the LRU cache (10000) is never exceeded here"]
 
@@ -25,7 +25,7 @@ CLASSES = ["Solver", "SolverCacheless", "SolverComposite", "SolverHybrid"]
 
 
 def floors(tier):
-    return {"cores_on_unsat": 200 if tier == "quick" else 3000, "cores_on_sat": 100, "path:pairwise": 20, "path:z3": 50, "path:concrete-false": 20, "path:after-simplify": 15, "path:repeat-call": 30, "path:after-branch": 20}
+    return {"cores_on_unsat": 200 if tier == "quick" else 3000, "cores_on_sat": 100, "path:pairwise": 20, "path:z3": 50, "path:concrete-false": 20, "path:after-simplify": 15, "path:repeat-call": 30, "path:after-branch": 20, "derived_cores_judged": 500 if tier == "quick" else 5000, "derived_cores_on_sat": 200, "derived_cores_on_unsat": 200}
 
 
 def plan(tier, seed):
@@ -34,7 +34,130 @@ def plan(tier, seed):
     # the same with a conversion cache of a few entries (what a solver with more than 10000 constraints meets with the
     # default size): the table that leads from a Z3 term back to the constraint that was added must not depend on it
     S += [{"kind": "cores", "cls": cls, "stream": 10 + i, "n": 80 if q else 800, "small_cache": 6, "env": {"REUSE_Z3_SOLVER": str(i % 2)}} for cls in CLASSES for i in range(1 if q else 2)]
+    # solvers derived from a solver whose core is already known (split parts, merge results, blank copies, combinations)
+    S += [{"kind": "derived", "cls": cls, "stream": 20 + i, "n": 40 if q else 400, "env": {"REUSE_Z3_SOLVER": str(i % 2)}} for cls in CLASSES for i in range(1 if q else 2)]
     return S
+
+
+def derived_shard(spec, res, rng, cls, cfg):
+    """u is a tracked solver found contradictory in one of the ways claripy finds that out (the pair check at add
+    time, a false constant, Z3), optionally already asked for its core; v is a satisfiable one.  Every solver derived
+    from them - the parts of split(), merge() either way round, blank_copy() with constraints of its own, combine(),
+    branch() - is judged like any tracked solver: by its own constraints (read from .constraints, decided by Z3 on the
+    harness's own translation): empty core when satisfiable, else members of its constraints with an unsatisfiable
+    conjunction."""
+    import claripy
+
+    from vf.mon import sem
+    from vf.ref import z3ref
+
+    def judge(label, d, hist):
+        own = list(d.constraints)
+        try:
+            sat, _ = z3ref.is_sat([sem.claripy_z3(c) for c in own], timeout_ms=5000) if own else (True, None)
+        except Exception:  # noqa: BLE001
+            res.count("derived_not_translatable")
+            return True
+        try:
+            core = d.unsat_core()
+        except claripy.errors.ClaripyError as e:
+            res.violation({"kind": "core", "what": "unsat_core-raised", "config": cfg, "derived_by": label, "observed": repr(e)[:200], "history": hist, "tb": traceback.format_exc()[-1200:]})
+            return False
+        res.count("derived_cores_judged")
+        res.count("derived:" + label.split("[")[0])
+        res.case([cfg, hist, label], nontrivial=True)
+        if not isinstance(core, (list, tuple)):
+            res.violation({"kind": "core", "what": "core-not-a-sequence", "config": cfg, "derived_by": label, "observed": repr(core)[:200], "history": hist})
+            return False
+        if sat:
+            res.count("derived_cores_on_sat")
+            if len(core):
+                res.violation({"kind": "core", "what": "non-empty-core-on-satisfiable-constraints", "config": cfg, "derived_by": label, "core": [repr(c)[:120] for c in core], "constraints": [repr(c)[:120] for c in own], "history": hist})
+                return False
+            return True
+        res.count("derived_cores_on_unsat")
+        pool = list(own) + [x for a in own if a.op == "And" for x in a.args]
+        for c in core:
+            if not any(c is a or a.hash() == c.hash() for a in pool):
+                res.violation({"kind": "core", "what": "core-element-was-never-added", "config": cfg, "derived_by": label, "observed": repr(c)[:200], "constraints": [repr(a)[:120] for a in own], "history": hist})
+                return False
+        sat_core, _ = z3ref.is_sat([sem.claripy_z3(c) for c in core], timeout_ms=5000) if len(core) else (True, None)
+        if sat_core:
+            res.violation({"kind": "core", "what": "core-is-satisfiable" if len(core) else "empty-core-on-unsatisfiable-constraints", "config": cfg, "derived_by": label, "core": [repr(c)[:120] for c in core], "constraints": [repr(c)[:120] for c in own], "history": hist})
+            return False
+        return True
+
+    for it in range(spec["n"]):
+        w = rng.choice([3, 8, 32])
+        x, y, z = (claripy.BVS(n_, w, explicit_name=True) for n_ in ("dx", "dy", "dz"))
+        b = claripy.BoolS("db", explicit_name=True)
+        k1 = rng.randrange(0, 7)
+        k2 = (k1 + 1 + rng.randrange(0, 5)) % 8
+        how = rng.choice(["pair", "pair", "false", "z3", "sat"])
+        u = cls(track=True)
+        hist = [how]
+        side = [claripy.ULT(y, rng.randrange(1, 7)), y != rng.randrange(0, 7), claripy.UGT(z, rng.randrange(0, 6))]
+        rng.shuffle(side)
+        pre = side[: rng.randrange(0, 3)]
+        post = side[len(pre) : len(pre) + rng.randrange(0, 2)]
+        try:
+            for c in pre:
+                u.add(c)
+            if how == "pair":
+                u.add(x == k1)
+                u.add(x == k2)
+            elif how == "false":
+                u.add(x == k1)
+                u.add(claripy.false())
+            elif how == "z3":
+                u.add(claripy.ULT(x, y))
+                u.add(claripy.ULT(y, x))
+            else:
+                u.add(x == k1)
+            for c in post:
+                u.add(c)
+            asked = rng.random() < 0.6
+            if asked:
+                hist.append("core-asked-first")
+                if not judge("u", u, hist):
+                    continue
+            elif rng.random() < 0.5:
+                hist.append("satisfiable-asked-first")
+                u.satisfiable()
+            v = cls(track=True)
+            v.add(x == rng.randrange(0, 7))
+            v.add(y == rng.randrange(0, 7))
+            if rng.random() < 0.5:
+                v.satisfiable()
+            derived = []
+            for i, part in enumerate(u.split()):
+                derived.append((f"split[{i}]", part))
+            derived.append(("merge-u-first", u.merge([v], [b, claripy.Not(b)])[1]))
+            derived.append(("merge-v-first", v.merge([u], [b, claripy.Not(b)])[1]))
+            bc = u.blank_copy()
+            bc.add(y == 1)
+            derived.append(("blank_copy-sat", bc))
+            bc2 = u.blank_copy()
+            bc2.add(claripy.ULT(z, 2))
+            bc2.add(claripy.UGT(z, 4))
+            derived.append(("blank_copy-unsat", bc2))
+            derived.append(("combine", u.combine([v])))
+            derived.append(("combine-v-first", v.combine([u])))
+            br = u.branch()
+            derived.append(("branch", br))
+            br2 = v.branch()
+            br2.add(x == 7)
+            br2.add(claripy.ULT(x, 3))
+            derived.append(("branch-of-sat-made-unsat", br2))
+            rng.shuffle(derived)
+            for label, d in derived:
+                if not judge(label, d, hist):
+                    break
+            # and the two they were derived from, afterwards
+            judge("u-afterwards", u, hist)
+            judge("v-afterwards", v, hist)
+        except claripy.errors.ClaripyError as e:
+            res.violation({"kind": "core", "what": "derived-scenario-raised", "config": cfg, "observed": repr(e)[:200], "history": hist, "tb": traceback.format_exc()[-1200:]})
 
 
 def run_shard(spec, res):
@@ -52,6 +175,9 @@ def run_shard(spec, res):
         claripy.backends.z3._ast_cache_size = spec["small_cache"]
         claripy.backends.z3._tls.__dict__.pop("ast_cache", None)
         res.count("small_cache_shards")
+    if spec["kind"] == "derived":
+        derived_shard(spec, res, rng, cls, cfg)
+        return
 
     for it in range(spec["n"]):
         al = H.Alphabet(rng, w=3, nvars=rng.choice([2, 3, 4]), nbools=0)
